@@ -509,6 +509,23 @@ func TestShapes(t *testing.T) {
 		r["unchanged"] = string(in) == string(orig)
 		d2 := decodeShape(s.Enc, in, newPtr())
 		r["first"], r["second"] = d1, d2
+		// determinism: six further decodes of the same bytes (typed and untyped) must agree with the first
+		differs := 0
+		var g0 string
+		for k := 0; k < 6; k++ {
+			dk := decodeShape(s.Enc, append([]byte(nil), orig...), newPtr())
+			if dk.Outcome != d1.Outcome || dk.Bin != d1.Bin {
+				differs++
+			}
+			var gv ttlv.Value
+			dgk := decodeShape(s.Enc, append([]byte(nil), orig...), &gv)
+			if k == 0 {
+				g0 = dgk.Outcome + dgk.Bin
+			} else if dgk.Outcome+dgk.Bin != g0 {
+				differs++
+			}
+		}
+		r["again_differs"] = differs
 		var generic ttlv.Value
 		dg := decodeShape(s.Enc, append([]byte(nil), orig...), &generic)
 		dg.Bin = ""
